@@ -256,7 +256,7 @@ def extra_checks(ctx, cases_, impl_lines, model_lines_):
     from gen import xcheck
     res = xcheck.borrow(ctx, "C09", "encoding never panics, whatever the record's message does while it is formatted",
                         lambda c: c[0] in (6, 9), n=300)
-    return res or huge_max_checks(ctx)
+    return res or huge_max_checks(ctx) or wide_spec_checks(ctx)
 
 
 def huge_max_checks(ctx):
@@ -292,4 +292,101 @@ def huge_max_checks(ctx):
                         {"case_line": lines[2 * i], "reference_case_line": lines[2 * i + 1]}))
             break
     ctx.setdefault("xcheck", {})["patterns_with_huge_maximum_width_encoded"] = len(pairs)
+    return out
+
+
+def wide_spec_checks(ctx, vh=None):
+    """Width specs the unary model is not run on, judged directly from the property text (shared by C09, C10, C11):
+    (a) a MAXIMUM width of 2^k + r (k = 8, 16, 31, 32, 33, 40, 63; small r) cuts nothing from a 9-character text
+        (any width field narrower than usize shows as a cut at r);
+    (b) a MINIMUM width of 65 535 .. 70 001 pads to exactly that many characters, left and right, space and
+        non-ASCII fill (a fill written through a formatting width, a u16 counter);
+    (c) a MINIMUM width no sink can hold (2^32 .. 2^64-1) into a sink that takes 300 bytes and then fails: the
+        text and then fill up to the 300 bytes must have been written, and encode must report the error."""
+    vc = ctx["vc"]
+    vh = vh or ctx["vh"]
+    out = []
+    K9 = 5                      # RECS[5]: message "xxxxxxxxx", level TRACE
+    assert RECS[K9 % len(RECS)][1] == cp("x" * 9)
+
+    def run(cases_):
+        lines = [vc.show(c) for c in cases_]
+        return lines, vc.run_lines([vh], lines, timeout_per_batch=300)
+
+    def text_of(r):
+        v = vc.parse(r)
+        if not (isinstance(v, list) and len(v) == 4 and isinstance(v[3], list)):
+            return None, v
+        if v[3] and v[3][0] == b"err":
+            return "".join("".join(chr(x) for x in e) for e in v[3][1] if isinstance(e, list)), "err"
+        return "".join("".join(chr(x) for x in e) for e in v[3] if isinstance(e, list)), "ok"
+
+    # (a)
+    cs, meta = [], []
+    for base, r in ((1 << 8, 3), (1 << 16, 3), (1 << 16, 0), (1 << 31, 5), (1 << 32, 1), (1 << 32, 3), (1 << 32, 5), (1 << 33, 5),
+                    (1 << 40, 5), (1 << 63, 5), (3 << 32, 2), ((1 << 64) - (1 << 32), 4)):
+        for tmpl in ("{m:.%d}", "{m:>12.%d}|", "{m:-<13.%d}", "[{({l} {m}):.%d}]", "{h({m:.%d})}"):
+            c = mk_str(tmpl % (base + r), K9)
+            c[0] = 1
+            cs.append(c)
+            ref = mk_str(tmpl % 64, K9)
+            ref[0] = 1
+            cs.append(ref)
+            meta.append(tmpl % (base + r))
+    lines, res = run(cs)
+    for i, pat in enumerate(meta):
+        try:
+            same = vc.parse(res[2 * i])[3] == vc.parse(res[2 * i + 1])[3]
+        except Exception:
+            same = False
+        if not same:
+            out.append(("a maximum width larger than the text cuts nothing: %s does not encode like the same pattern with maximum 64: %s vs %s"
+                        % (pat, res[2 * i][-160:], res[2 * i + 1][-160:]), {"case_line": lines[2 * i], "reference_case_line": lines[2 * i + 1]}))
+            return out
+    ctx.setdefault("xcheck", {})["max_widths_2^k_plus_r_encoded"] = len(meta)
+    # (b)
+    cs, meta = [], []
+    for w in (65535, 65536, 65537, 70001):
+        for spec, fill, right in (("%d", " ", False), (">%d", " ", True), ("-<%d", "-", False), ("\u00e9>%d", "\u00e9", True), ("<%d", " ", False)):
+            c = mk_str("[{m:" + spec % w + "}]", K9)
+            c[0] = 1
+            cs.append(c)
+            meta.append((w, fill, right, "[{m:" + spec % w + "}]"))
+    lines, res = run(cs)
+    for i, (w, fill, right, pat) in enumerate(meta):
+        try:
+            got, st = text_of(res[i])
+        except Exception:
+            got, st = None, res[i][:120]
+        pad = fill * (w - 9)
+        want = "[" + (pad + "x" * 9 if right else "x" * 9 + pad) + "]"
+        if got != want or st != "ok":
+            out.append(("a minimum width pads to exactly that many characters: %s wrote %s character(s) (%s), the property says %d: '[', the 9 of "
+                        "the text %s %d x %r, ']'" % (pat, "no" if got is None else len(got), st if got is None else "status " + str(st), len(want),
+                                                      "after" if right else "before", w - 9, fill),
+                        {"case_line": lines[i]}))
+            return out
+    ctx.setdefault("xcheck", {})["min_widths_around_2^16_encoded"] = len(meta)
+    # (c)
+    cs, meta = [], []
+    for w in ((1 << 64) - 1, 1 << 63, (1 << 63) + 5, (1 << 63) - 1, 1 << 32, (1 << 62) + 1):
+        for spec, fill, right in (("%d", " ", False), ("-<%d", "-", False), (">%d", " ", True), ("*>%d", "*", True)):
+            c = mk_str("{m:" + spec % w + "}", K9)
+            c[0] = 7
+            cs.append(c)
+            meta.append((w, fill, right, "{m:" + spec % w + "}"))
+    lines, res = run(cs)
+    for i, (w, fill, right, pat) in enumerate(meta):
+        try:
+            got, st = text_of(res[i])
+        except Exception:
+            got, st = None, res[i][:120]
+        want = (fill * 300) if right else ("x" * 9 + fill * 291)
+        if got != want or st != "err":
+            out.append(("a minimum width no sink can hold, into a sink that takes 300 bytes and then fails: %s must write %s and report "
+                        "the sink's error; it wrote %r... (%s character(s)) with status %s" %
+                        (pat, "300 fill characters" if right else "the text and 291 fill characters", (got or "")[:24],
+                         "no" if got is None else len(got), st), {"case_line": lines[i]}))
+            return out
+    ctx.setdefault("xcheck", {})["unreachable_min_widths_into_failing_sink"] = len(meta)
     return out
